@@ -85,8 +85,9 @@ def generic_runner(P, exe, model_ok, rng, tier, replay=None):
         if si.xlines:
             fails.append(dict(clause="harness_protocol", cause="other", witness="%s" % si.xlines[:2], scenario_text=text_of[sid]))
             continue
-        # oracle on the implementation's outputs
-        for orc in P.get("oracles", []):
+        # oracle on the implementation's outputs (the inputs-in-force check applies to every scenario
+        # with graph updates, whatever the property)
+        for orc in list(P.get("oracles", [])) + [oracle.inputs_in_force]:
             try:
                 ofails = orc(si)[:5]
             except Exception as ex:  # an oracle that cannot evaluate an output is itself a finding
